@@ -111,6 +111,12 @@ def apply_model(F, c, a, where):
         return path_file_stem(a[0])
     if re.search(r"std::path::Path::file_name$", c):
         return path_file_name(a[0])
+    if re.search(r"std::path::Path::file_prefix$", c):
+        fn = path_file_name(a[0])
+        if fn == NONE:
+            return NONE
+        b = fn[1]
+        return some(b if "." not in b[1:] else b[0] + b[1:].split(".", 1)[0])
     if re.search(r"std::path::Path::extension$", c):
         return path_extension(a[0])
     if re.search(r"std::path::Path::(new|as_os_str|to_path_buf)$|path::PathBuf::(from|as_path)$|OsStr::(new|to_os_string)$|OsString::(as_os_str)$", c):
